@@ -1,4 +1,5 @@
 \* without MsgRemoveSmartContractDeployment: additionally the hand-over installs the address it forwarded to
+\* (MaxLevel = 100 is no bound: the complete graph under MaxQ/MaxSeq has depth 32)
 CONSTANTS
   NChains = 2
   MaxId = 3
@@ -8,7 +9,7 @@ CONSTANTS
   SkyInit = 7
   MaxQ = 3
   MaxSeq = 4
-  MaxLevel = 12
+  MaxLevel = 100
 INIT Init
 NEXT NextNoRemoveDeployment
 CONSTRAINT Constr
